@@ -419,6 +419,52 @@ func TestC11Hostile(t *testing.T) {
 				judge(t, x.Rename(d, name, other, to))
 			}
 		}
+		// many requests in a row that are refused after they have started (names beyond the limit: the inode is
+		// allocated before the name is refused), within one server uptime: whatever the server keeps per refused
+		// request must not add up to something that stops it
+		nburst := 0
+		acts["refused_burst"] = func(t *rapid.T) {
+			if cut || nburst >= 1 {
+				t.Skip("once per case")
+			}
+			nburst++
+			n := pick(t, []int{40, 60, 120, 250}, "howmany")
+			d := g.DirRef(t)
+			x.logf("%d CREATE/MKDIR/SYMLINK requests in %s with names of 200 bytes", n, d.Desc)
+			long := strings.Repeat("N", 200)
+			bad := ""
+			err := x.call(func() {
+				api := x.S.API()
+				for i := 0; i < n; i++ {
+					where := nt.Diropargs3{Dir: d.fh(), Name: nt.Filename3(fmt.Sprintf("%s%d", long, i))}
+					var st nt.Nfsstat3
+					switch i % 3 {
+					case 0:
+						st = api.NFSPROC3_CREATE(nt.CREATE3args{Where: where}).Status
+					case 1:
+						st = api.NFSPROC3_MKDIR(nt.MKDIR3args{Where: where}).Status
+					default:
+						st = api.NFSPROC3_SYMLINK(nt.SYMLINK3args{Where: where, Symlink: nt.Symlinkdata3{Symlink_data: "t"}}).Status
+					}
+					if st == nt.NFS3_OK {
+						bad = fmt.Sprintf("request %d with a name of %d bytes answered OK", i, len(where.Name))
+						return
+					}
+				}
+			})
+			nhostile += n
+			St.Class("bursts_of_requests_refused_after_they_started")
+			if err != nil {
+				judge(t, err)
+				return
+			}
+			if bad != "" {
+				judge(t, x.errf("%s", bad))
+				return
+			}
+			// and the server still does its work
+			judge(t, x.CompareAll())
+		}
 		steps := 0
 		acts[""] = func(t *rapid.T) {
 			steps++
